@@ -58,6 +58,11 @@ def plan_for(spec, nthreads):
     fresh = spec.get("init", "fresh") == "fresh"
     pre = [(0, steps[0])] if fresh else []
     conc = list(range(1 if fresh else 0, nthreads))
+    if spec.get("plan"):
+        # explicit shape: [[thread, "f" | "s"], ...]  (f = the solver chooses the chunk's length, s = runs to completion)
+        chunks = pre + [(t, steps[t]) for (t, _) in spec["plan"]]
+        free = [len(pre) + i for i, (_, m) in enumerate(spec["plan"]) if m == "f"]
+        return chunks, free
     if kind == "crash":
         v, s = conc[0], conc[1]
         return pre + [(v, steps[v]), (s, steps[s])], [len(pre)]
